@@ -9,7 +9,7 @@ import os
 import random
 import sys
 import time
-from asyncio import Future, ensure_future, iscoroutine, sleep
+from asyncio import Future, ensure_future, gather, iscoroutine, sleep
 from binascii import hexlify, unhexlify
 from collections import Counter, defaultdict
 from struct import pack
@@ -250,16 +250,24 @@ class TunnelCommunity(Community):
         """
         Remove all circuits/relays/exitsockets.
         """
-        for circuit_id in list(self.circuits.keys()):
-            self.remove_circuit(circuit_id, "unload", remove_now=True, destroy=DESTROY_REASON_SHUTDOWN)
-        for circuit_id in list(self.relay_from_to.keys()):
-            self.remove_relay(circuit_id, "unload", remove_now=True, destroy=DESTROY_REASON_SHUTDOWN)
-        for circuit_id in list(self.exit_sockets.keys()):
-            self.remove_exit_socket(circuit_id, "unload", remove_now=True, destroy=DESTROY_REASON_SHUTDOWN)
+        removals = [self.remove_circuit(circuit_id, "unload", remove_now=True, destroy=DESTROY_REASON_SHUTDOWN)
+                    for circuit_id in list(self.circuits.keys())]
+        removals += [self.remove_relay(circuit_id, "unload", remove_now=True, destroy=DESTROY_REASON_SHUTDOWN)
+                     for circuit_id in list(self.relay_from_to.keys())]
+        removals += [self.remove_exit_socket(circuit_id, "unload", remove_now=True, destroy=DESTROY_REASON_SHUTDOWN)
+                     for circuit_id in list(self.exit_sockets.keys())]
+        # The removals are tasks of this overlay: wait for them, otherwise shutting down the task manager cancels
+        # them before they have closed the exit sockets.
+        await gather(*removals, return_exceptions=True)
 
         await self.request_cache.shutdown()
 
         await super().unload()
+
+        # A create that was still being handled while we were unloading may have joined a circuit after the
+        # removals above. No handler can run anymore now: release what they left behind.
+        for circuit_id in list(self.exit_sockets.keys()):
+            await self.exit_sockets.pop(circuit_id).close()
 
     def get_serializer(self) -> Serializer:
         """
@@ -495,7 +503,7 @@ class TunnelCommunity(Community):
 
         circuit_to_remove.close(additional_info)
 
-        if not remove_now or self.settings.remove_tunnel_delay > 0:
+        if not remove_now and self.settings.remove_tunnel_delay > 0:
             await sleep(self.settings.remove_tunnel_delay)
 
         circuit = self.circuits.pop(circuit_id, None)
@@ -512,7 +520,7 @@ class TunnelCommunity(Community):
         if destroy:
             self.destroy_relay(circuit_id, reason=destroy)
 
-        if not remove_now or self.settings.remove_tunnel_delay > 0:
+        if not remove_now and self.settings.remove_tunnel_delay > 0:
             await sleep(self.settings.remove_tunnel_delay)
 
         self.logger.info("Removing relay %d %s", circuit_id, additional_info)
@@ -529,7 +537,7 @@ class TunnelCommunity(Community):
         if exit_socket_to_destroy and destroy:
             self.destroy_exit_socket(exit_socket_to_destroy, reason=destroy)
 
-        if not remove_now or self.settings.remove_tunnel_delay > 0:
+        if not remove_now and self.settings.remove_tunnel_delay > 0:
             await sleep(self.settings.remove_tunnel_delay)
 
         self.logger.info("Removing exit socket %d %s", circuit_id, additional_info)
